@@ -1,10 +1,11 @@
-import subprocess,sys,re
+import subprocess,sys,re,os
+COQDIR=os.environ.get('COQDIR','/verif/coq')
 # usage: gen_props.py Module name1 name2 ...
 mod=sys.argv[1]; names=sys.argv[2:]
 src="From H2T Require Import Base Tagged Wrap Sub Css Dom Render Api CssParse Proofs.CssTotal Proofs.WrapInv Proofs.RenderWidth Proofs.Conserve Proofs.Footnotes Proofs.AnnBalance Proofs.RenderConserve Proofs.OptionRel Proofs.Compose Proofs.RenderTotal Proofs.FragStream Proofs.SimRel Proofs.Prune Proofs.%s.\nSet Printing Width 110.\nSet Printing Depth 1000.\n"%mod
 for n in names: src+="Check %s.%s.\n"%(mod,n)
 open('/tmp/chk.v','w').write(src)
-out=subprocess.run("cd /verif/coq && coqtop -Q . H2T -quiet < /tmp/chk.v 2>&1",shell=True,capture_output=True,text=True).stdout
+out=subprocess.run("cd %s && coqtop -Q . H2T -quiet < /tmp/chk.v 2>&1"%COQDIR,shell=True,capture_output=True,text=True).stdout
 # split on "Mod.name\n     : type"
 res={}
 for n in names:
